@@ -362,14 +362,42 @@ def expected(scn):
         if w.kind(gname) in ('enum', 'flags') and gname.startswith(PREFIX):
             enum_nodes[gname] = 'enumeration' if w.kind(gname) == 'enum' else 'bitfield'
     for cname, tag in sorted(enum_nodes.items()):
-        stem = uscore(cname[len(PREFIX):])
-        el = '%s:%s' % (tag, cname[len(PREFIX):])
+        name = cname[len(PREFIX):]
+        el = '%s:%s' % (tag, name)
+        # GLib naming convention: the quark function of FooDBusError is foo_dbus_error_quark, i.e.
+        # <ns>_<type name in lower snake case>_quark.  strong = the function stem is exactly the
+        # conventional snake form; weak = same letters but the words are cut elsewhere
+        # (foo_d_bus_error_quark): the convention does not say -> UNSPECIFIED
+        strong = [d for s, d in sorted(domain_of.items()) if s == snake(name)]
+        weak = [d for s, d in sorted(domain_of.items()) if s != snake(name) and s.replace('_', '') == name.lower()]
         if tag == 'enumeration':
-            add(el + '@glib:error-domain', domain_of.get(stem))
+            if len(strong) == 1 and not weak:
+                add(el + '@glib:error-domain', strong[0])
+            elif strong or weak:
+                add(el + '@glib:error-domain', (strong + weak)[0], 'U')
+            else:
+                add(el + '@glib:error-domain', None)
         else:
             # a flags type named like the quark function: not an "enumeration"; nothing fixed
-            add(el + '@glib:error-domain', None, 'U' if stem in domain_of else 'M')
+            add(el + '@glib:error-domain', None, 'U' if (strong or weak) else 'M')
     return F, w
+
+
+def snake(name):
+    """Lower snake case of an un-prefixed CamelCase type name, GLib convention (GDBusError ->
+    dbus_error, GIOError -> io_error, GtkIMContext -> im_context, X11Error -> x11_error): a capital
+    starts a word when it follows a non-capital, or when it follows at least two capitals and is
+    itself followed by a lower-case letter (the last capital of an acronym run belongs to the next word)."""
+    out = []
+    for i, ch in enumerate(name):
+        if ch.isupper() and i:
+            prev = name[i - 1]
+            if not prev.isupper():
+                out.append('_')
+            elif i >= 2 and name[i - 2].isupper() and i + 1 < len(name) and name[i + 1].islower():
+                out.append('_')
+        out.append(ch.lower())
+    return ''.join(out)
 
 
 def uscore(camel):
